@@ -98,8 +98,7 @@ func (c *FileCache[MetadataT]) Destroy() {
 }
 
 func (c *FileCache[MetadataT]) ensureRemoveFile(path string) error {
-	stat, err := os.Stat(path)
-	if err != nil {
+	if _, err := os.Stat(path); err != nil {
 		if errors.Is(err, os.ErrNotExist) {
 			// We only want to return critical errors, not if the file doesn't exist
 			return nil
@@ -115,11 +114,6 @@ func (c *FileCache[MetadataT]) ensureRemoveFile(path string) error {
 	}
 
 	slog.Info("Removed file", "path", path)
-	size := stat.Size()
-
-	decrementCacheEntries()
-	decrementCacheSize(&c.byteSize, size)
-
 	return nil
 }
 
@@ -133,8 +127,17 @@ func (c *FileCache[MetadataT]) ensureRemove(key CacheKey) error {
 	}
 
 	c.mu.Lock()
+	meta, existed := c.entriesMetadata[key]
 	delete(c.entriesMetadata, key) // Remove the entry from the map
 	c.mu.Unlock()
+
+	// The counters follow the entries, not the files: what goes out is what was counted when the
+	// entry came in, whether or not its file was still there (or still had that size), and nothing
+	// for a key that was never an entry.
+	if existed {
+		decrementCacheEntries()
+		decrementCacheSize(&c.byteSize, meta.Size)
+	}
 
 	return nil
 }
